@@ -1,39 +1,35 @@
 import GardenVerif.Lemmas.Parse
+import GardenVerif.Lemmas.Lex
 /-!
-C01 (parser half) — the parser model M2 (`pn = false` = /repo HEAD: left-assoc, tuple-progress and
-eof-progress repairs) does not panic.
+C01 (parser half) — the parser model M2 (`pn = false` = /repo HEAD with the left-assoc, tuple-progress,
+eof-progress repairs, plus parser-fix-struct-literal-keyword.diff) does not panic.
 
-PROVED (`parse_no_panic_partial`, `parseBlock_no_panic`, `parseExpression_progress`, `specs_all`), for every
-non-empty lexer-like token list (`LexLike`: a float-looking token is a whole float, a symbol-like token
-sits on one line — both guaranteed by the real lexer), EVERY fuel and every state inside the list:
-none of the panic sites in or below `parse_expression` / `parse_block` fires, i.e. all of
-  parse_expression(_with_trailing), its trailing loop, parse_call_arguments, parse_comma_separated_exprs,
-  parse_expression_no_trailing, parse_simple_expression, parse_tuple_literal_or_parentheses (+loop),
-  parse_list_literal, parse_dict_literal (+items), parse_lambda, parse_assert, parse_if, parse_while,
-  parse_try, parse_for_in, parse_return, break/continue, parse_struct_literal (+fields), parse_match
-  (+loop), parse_case_block, parse_block (+loop), parse_let, parse_assign, parse_assign_update,
-  parse_integer, parse_float, parse_variable, parse_symbol, require_a_token, check_required_token /
-  require_token, parse_type_hint / parse_type_arguments / parse_tuple_type_hint (+loops),
-  parse_type_params, parse_colon_and(_hint_opt), parse_parameter(s), parse_let_destination (+loop),
-  parse_pattern
-(assertions parser.rs:328, 404, 1082, 1361, 2334 and the former 1995, 2183, 2812; `expect`s 86/151;
-`unwrap`s 229/512; `unpop`), together with the progress invariant the assertions gesture at: a parse
-function returns at or beyond its start index — except `parse_symbol` and its direct users at the end
-of the file, which may step back onto a last token that is not symbol-like (`Mv`) — and
-`parse_expression` returns strictly beyond it unless the result is `Invalid` / a placeholder.
-The proof is by induction on fuel for all fuel at once (`Specs toks fuel`), so it does not depend on
-any termination bound.
+MAIN THEOREM (full, for the whole parser):
+  `parse_no_panic : ∀ fuel toks, toks ≠ [] → LexLike toks → isPanic (parseItems fuel toks) = false`
+for EVERY fuel (induction on fuel for all fuel at once: `Specs toks fuel` for the 28 mutually recursive
+functions of the expression block, `hints_ok` for the type-hint block, separate inductions for the
+non-mutual loops), so it does not rest on any termination bound. Covered panic sites: the ten progress
+assertions (parser.rs:328, 404, 995 (dead), 1082, 1361, 2334, 3067 and the former 1995, 2183, 2812, now
+`break`s), `expect("TODO: handle empty …")` 86/151, `unwrap`s 229/512, `unpop`.
+Also: `parse_no_panic_partial` / `parseBlock_no_panic` (any start state inside the token list),
+`parseExpression_progress` (the invariant the assertions gesture at: the index never moves back, and
+moves strictly forward unless the result is `Invalid` / a placeholder), `itemsLoop_ok`.
 
-NOT covered (the full `parse_no_panic : toks ≠ [] → LexLike toks → ¬ isPanic (parseItems fuel toks)`):
-the definitions level — parse_function, parse_method, parse_test, parse_enum (+body, variant),
-parse_struct (+fields), parse_import, parse_definition, parse_toplevel_item and the items loop with
-its assertion parser.rs:3067. Nothing blocks them (same `wp` rules; the items-loop assertion needs
-"a non-placeholder item consumed a token", which follows from `kw_strict` for the keyword-led
-definitions and from `Ex` for expression items); they were not done in the time box. They are covered
-by the correspondence / fuzz runs (model PANIC ⇔ implementation PANIC).
+Hypothesis `LexLike toks` (what the parser relies on from the lexer): a float-looking token is a whole
+float (else `parse::<f64>().unwrap()` panics) and a symbol-like token sits on one line (else
+`parse_symbol`'s same-line test can un-pop a keyword it just consumed and `try`/… would make no
+progress). It is PROVED about the lexer model (`LexLikeProof.lex_lexLike`, end of this file), which gives the
+hypothesis-free `lex_parse_no_panic : ∀ src strAny fuel, ¬ panic (parseItems fuel (tokens of lex src))`;
+harness/c01.py additionally checks it on every real token stream of every run
+(coverage.lexlike_token_streams_checked / lexlike_violations).
 
-Found while proving (all real, replayed on the binary): `x NEWLINE else{ }` (a keyword on a later line
-glued to `{`) recurses without bound in parse_struct_literal → stack overflow; see the report.
+The one documented backward move: `parse_symbol` at the end of the file hands back the previous token
+and may un-pop it (`Mv`: back onto a LAST token that is not symbol-like); every caller is shown to end
+at or beyond its own start.
+
+Found while proving (real, replayed on the binary, repaired by the patches named in Model/Parse.lean):
+EOF panics at 1995/2183/2812, EOF non-termination in four loops, unbounded recursion on a keyword at
+the start of a line glued to `{` (`x NEWLINE else{ }`).
 -/
 
 namespace C01Parse
@@ -1854,6 +1850,450 @@ theorem parseExpression_progress (fuel : Nat) (s : St) (hs : s.idx ≤ toks.leng
 end final
 
 
+/-! ### Definitions, items loop, the main theorem -/
+
+section level3
+variable (toks : Toks) (hne : toks ≠ []) (hl : LexLike toks)
+include hne hl
+
+theorem mv_of_fw {s s' : St} (h : Fw toks s s') : Mv toks s.idx s'.idx := Mv.step h.1 h.2
+
+theorem block_fw (fuel : Nat) (s : St) (hs : s.idx ≤ toks.length) :
+    wp (parseBlock toks false fuel) (fun _ s' => Fw toks s s') s :=
+  (specs_all toks hne hl fuel).block s hs
+
+/-- A block that starts with `{` consumes it. -/
+theorem block_strict (fuel : Nat) (s : St) (hs : s.idx ≤ toks.length) (hk : tokIs toks s.idx "{" = true) :
+    wp (parseBlock toks false fuel) (fun _ s' => Sf toks s s') s := by
+  cases fuel with
+  | zero => rw [parseBlock]; simp [wp_outOfFuel]
+  | succ fuel =>
+    have ih := specs_all toks hne hl fuel
+    rw [parseBlock]
+    wpsimp'
+    refine wp_mono (spec_requireToken toks hne "{" s hs) ?_
+    intro o s1 m1
+    have e1 := rt_eq m1.2 hk
+    split
+    · exact ⟨by omega, m1.1⟩
+    · refine wp_mono (ih.blockL [] s1 m1.1) ?_
+      intro es s2 m2
+      refine wp_mono (spec_requireToken toks hne "}" s2 m2.2) ?_
+      intro _ s3 m3
+      have := m2.1; have b3 := rt_le m3.2
+      exact ⟨by omega, m3.1⟩
+
+theorem spec_popIfPublic (s : St) (hs : s.idx ≤ toks.length) :
+    wp (popIfPublic toks) (fun _ s' => s'.idx ≤ toks.length ∧
+      ((tokIs toks s.idx "public" = true ∧ s'.idx = s.idx + 1) ∨ (tokIs toks s.idx "public" = false ∧ s'.idx = s.idx))) s := by
+  unfold popIfPublic
+  wpsimp'
+  refine ite_intro (fun c => ?_) fun c => ?_
+  · obtain ⟨t, ht, _⟩ := tokIs_get c
+    have := get_lt ht
+    simp only [ht]
+    refine ⟨by first | omega | (simp only []; omega), Or.inl ⟨c, ?_⟩⟩
+    simp
+  · refine ⟨hs, Or.inr ⟨by simpa using c, ?_⟩⟩
+    simp
+
+/-- The common head of `parse_function/method/enum/struct`: an optional `public`, then the keyword.
+If the first token is `public` or the keyword, it is consumed. -/
+theorem head_ok (kw : String) (hsym : isSymbolTok kw = true) (s : St) (hs : s.idx ≤ toks.length)
+    (hk : tokIs toks s.idx "public" = true ∨ tokIs toks s.idx kw = true) :
+    wp (popIfPublic toks >>= fun pub => requireToken toks kw >>= fun _ => (pure pub : P Bool))
+      (fun _ s' => s'.idx ≤ toks.length ∧ s.idx < s'.idx ∧ ∀ j, Mv toks s'.idx j → s.idx < j) s := by
+  wpsimp'
+  refine wp_mono (spec_popIfPublic toks hne hl s hs) ?_
+  intro pub s1 m1
+  refine wp_mono (spec_requireToken toks hne kw s1 m1.1) ?_
+  intro _ s2 m2
+  have b2 := rt_le m2.2
+  have hgt : s.idx < s2.idx := by
+    rcases m1.2 with ⟨_, h⟩ | ⟨hf, h⟩
+    · omega
+    · rcases hk with hk | hk
+      · rw [hk] at hf; cases hf
+      · have : tokIs toks s1.idx kw = true := by
+          have : s1 = ⟨s.idx, s1.diags⟩ := by cases s1; simp_all
+          rw [this]; exact hk
+        have := rt_eq m2.2 this
+        omega
+  refine ⟨m2.1, hgt, fun j hj => ?_⟩
+  have hm : Mv toks (s.idx + 1) j := Mv.trans (Mv.step (by omega) m2.1) hj
+  rcases hk with hk | hk
+  · exact kw_strict hk (by decide) hm
+  · exact kw_strict hk hsym hm
+
+theorem parseFunction_ok (fuel : Nat) (s : St) (hs : s.idx ≤ toks.length)
+    (hk : tokIs toks s.idx "public" = true ∨ tokIs toks s.idx "fun" = true) :
+    wp (parseFunction toks false fuel) (fun _ s' => Sf toks s s') s := by
+  unfold parseFunction
+  have hh := head_ok toks hne hl "fun" (by decide) s hs hk
+  simp only [wp_bind, wp_pure, wp_ite] at hh ⊢
+  refine wp_mono hh ?_
+  intro pub s1 m1
+  refine wp_mono m1 ?_
+  intro _ s2 m2
+  refine wp_mono (spec_parseSymbol toks hne hl false s2 m2.1) ?_
+  intro name s3 m3
+  refine ite_intro (fun _ => ⟨m2.2.2 _ m3.1, m3.1.1⟩) fun _ => ?_
+  refine wp_mono (parseTypeParams_ok toks hne hl fuel s3 m3.1.1) ?_
+  intro tps s4 m4
+  refine wp_mono (parseParameters_ok toks hne hl fuel s4 m4.1) ?_
+  intro ps s5 m5
+  refine wp_mono (parseColonAndHintOpt_ok toks hne hl fuel s5 m5.1) ?_
+  intro r s6 m6
+  refine wp_mono (block_fw toks hne hl fuel s6 m6.1) ?_
+  intro b s7 m7
+  exact ⟨m2.2.2 _ (Mv.trans (Mv.trans (Mv.trans (Mv.trans m3.1 m4) m5) m6) (mv_of_fw toks hne hl m7)), m7.2⟩
+
+theorem parseMethod_ok (fuel : Nat) (s : St) (hs : s.idx ≤ toks.length)
+    (hk : tokIs toks s.idx "public" = true ∨ tokIs toks s.idx "method" = true) :
+    wp (parseMethod toks false fuel) (fun _ s' => Sf toks s s') s := by
+  unfold parseMethod
+  have hh := head_ok toks hne hl "method" (by decide) s hs hk
+  simp only [wp_bind, wp_pure, wp_ite] at hh ⊢
+  refine wp_mono hh ?_
+  intro pub s1 m1
+  refine wp_mono m1 ?_
+  intro _ s2 m2
+  refine wp_mono (spec_parseSymbol toks hne hl false s2 m2.1) ?_
+  intro name s3 m3
+  refine wp_mono (parseTypeParams_ok toks hne hl fuel s3 m3.1.1) ?_
+  intro tps s4 m4
+  refine wp_mono (parseParameters_ok toks hne hl fuel s4 m4.1) ?_
+  intro ps s5 m5
+  have fin : ∀ (s6 : St), s6.idx = s5.idx →
+      wp (parseColonAndHintOpt toks false fuel) (fun a s' =>
+        wp (parseBlock toks false fuel) (fun a_1 s' => Sf toks s s') s') s6 := by
+    intro s6 h6
+    refine wp_mono (parseColonAndHintOpt_ok toks hne hl fuel s6 (by rw [h6]; exact m5.1)) ?_
+    intro r s7 m7
+    refine wp_mono (block_fw toks hne hl fuel s7 m7.1) ?_
+    intro b s8 m8
+    exact ⟨m2.2.2 _ (Mv.trans (Mv.trans (Mv.trans (Mv.trans m3.1 m4) m5) (h6 ▸ m7)) (mv_of_fw toks hne hl m8)), m8.2⟩
+  cases ps with
+  | nil =>
+    simp only [wp_bind, wp_diag, wp_pure]
+    exact fin _ rfl
+  | cons p rest =>
+    simp only [wp_pure]
+    exact fin _ rfl
+
+theorem parseTest_ok (fuel : Nat) (s : St) (hs : s.idx ≤ toks.length) (hk : tokIs toks s.idx "test" = true) :
+    wp (parseTest toks false fuel) (fun _ s' => Sf toks s s') s := by
+  unfold parseTest
+  wpsimp'
+  refine wp_mono (spec_requireToken toks hne "test" s hs) ?_
+  intro _ s1 m1
+  have e1 := rt_eq m1.2 hk
+  refine wp_mono (spec_parseSymbol toks hne hl false s1 m1.1) ?_
+  intro name s2 m2
+  have fin : ∀ s3 : St, Mv toks s2.idx s3.idx →
+      wp (parseBlock toks false fuel) (fun a s' => Sf toks s s') s3 := by
+    intro s3 h3
+    refine wp_mono (block_fw toks hne hl fuel s3 h3.1) ?_
+    intro b s4 m4
+    exact ⟨kw_strict hk (by decide) (e1 ▸ Mv.trans (Mv.trans m2.1 h3) (mv_of_fw toks hne hl m4)), m4.2⟩
+  refine ite_intro (fun _ => ?_) fun _ => ?_
+  · refine wp_mono (parseParameters_ok toks hne hl fuel s2 m2.1.1) ?_
+    intro _ s3 m3
+    exact fin ⟨s3.idx, _⟩ m3
+  · exact fin s2 (Mv.refl m2.1.1)
+
+theorem parseVariant_ok (fuel : Nat) (s : St) (hs : s.idx ≤ toks.length) :
+    wp (parseVariant toks false fuel) (fun _ s' => Mv toks s.idx s'.idx) s := by
+  unfold parseVariant
+  wpsimp'
+  refine wp_mono (spec_parseSymbol toks hne hl false s hs) ?_
+  intro name s1 m1
+  refine ite_intro (fun c => ?_) fun _ => m1.1
+  obtain ⟨t, ht, _⟩ := tokIs_get c
+  have hlt := get_lt ht
+  simp only [ht]
+  refine wp_mono (hint_ok toks hne hl fuel ⟨s1.idx + 1, s1.diags⟩ (by first | omega | (simp only []; omega))) ?_
+  intro h s2 m2
+  refine wp_mono (spec_requireToken toks hne ")" s2 m2.1) ?_
+  intro _ s3 m3
+  have b3 := rt_le m3.2
+  exact Mv.trans (Mv.trans (Mv.trans m1.1 (Mv.step (Nat.le_succ _) (by first | omega | (simp only []; omega)))) m2)
+    (Mv.step b3.1 m3.1)
+
+theorem enumBodyLoop_ok : ∀ fuel acc s, s.idx ≤ toks.length →
+    wp (enumBodyLoop toks false fuel acc) (fun _ s' => Mv toks s.idx s'.idx) s := by
+  intro fuel
+  induction fuel with
+  | zero => intro acc s hs; rw [enumBodyLoop]; simp [wp_outOfFuel]
+  | succ fuel ih =>
+    intro acc s hs
+    rw [enumBodyLoop]
+    wpsimp'
+    refine ite_intro (fun _ => Mv.refl hs) fun _ => ?_
+    refine wp_mono (parseVariant_ok toks hne hl fuel s hs) ?_
+    intro v s1 m1
+    cases ht1 : toks[s1.idx]? with
+    | none => simp only [Option.map_none]; wpsimp'; exact m1
+    | some t1 =>
+      have hlt := get_lt ht1
+      have hstep : Mv toks s.idx (s1.idx + 1) := Mv.trans m1 (Mv.step (Nat.le_succ _) (by omega))
+      simp only [Option.map_some]
+      wpsimp'
+      refine ite_intro (fun _ => ?_) fun _ => ?_
+      · simp only [ht1]
+        refine ite_intro (fun _ => hstep) fun _ => ?_
+        refine wp_mono (ih _ ⟨s1.idx + 1, s1.diags⟩ (by first | omega | (simp only []; omega))) ?_
+        intro _ s2 m2
+        exact Mv.trans hstep m2
+      · refine ite_intro (fun _ => ?_) fun _ => ?_
+        · exact m1
+        · exact m1
+
+theorem structFieldsLoop_ok : ∀ fuel acc s, s.idx ≤ toks.length →
+    wp (structFieldsLoop toks false fuel acc) (fun _ s' => Mv toks s.idx s'.idx) s := by
+  intro fuel
+  induction fuel with
+  | zero => intro acc s hs; rw [structFieldsLoop]; simp [wp_outOfFuel]
+  | succ fuel ih =>
+    intro acc s hs
+    rw [structFieldsLoop]
+    wpsimp'
+    refine ite_intro (fun _ => Mv.refl hs) fun _ => ?_
+    cases ht : toks[s.idx]? with
+    | none => simp only [Option.map_none]; wpsimp'; exact Mv.refl hs
+    | some t =>
+      simp only [Option.map_some]
+      wpsimp'
+      refine wp_mono (spec_parseSymbol toks hne hl false s hs) ?_
+      intro sym s1 m1
+      refine wp_mono (parseColonAnd_ok toks hne hl fuel s1 m1.1.1) ?_
+      intro h s2 m2
+      have m12 := Mv.trans m1.1 m2
+      cases ht2 : toks[s2.idx]? with
+      | none => simp only [Option.map_none]; wpsimp'; exact m12
+      | some t2 =>
+        have hlt := get_lt ht2
+        simp only [Option.map_some]
+        wpsimp'
+        refine ite_intro (fun _ => ?_) fun _ => ?_
+        · simp only [ht2]
+          refine wp_mono (ih _ ⟨s2.idx + 1, s2.diags⟩ (by first | omega | (simp only []; omega))) ?_
+          intro _ s3 m3
+          exact Mv.trans (Mv.trans m12 (Mv.step (Nat.le_succ _) (by first | omega | (simp only []; omega)))) m3
+        · refine ite_intro (fun _ => ?_) fun _ => ?_
+          · exact m12
+          · exact m12
+
+theorem parseEnum_ok (fuel : Nat) (s : St) (hs : s.idx ≤ toks.length)
+    (hk : tokIs toks s.idx "public" = true ∨ tokIs toks s.idx "enum" = true) :
+    wp (parseEnum toks false fuel) (fun _ s' => Sf toks s s') s := by
+  unfold parseEnum
+  have hh := head_ok toks hne hl "enum" (by decide) s hs hk
+  simp only [wp_bind, wp_pure, wp_ite] at hh ⊢
+  refine wp_mono hh ?_
+  intro pub s1 m1
+  refine wp_mono m1 ?_
+  intro _ s2 m2
+  refine wp_mono (spec_parseSymbol toks hne hl false s2 m2.1) ?_
+  intro name s3 m3
+  refine wp_mono (parseTypeParams_ok toks hne hl fuel s3 m3.1.1) ?_
+  intro tps s4 m4
+  refine wp_mono (spec_requiredTokenOk toks hne "{" s4 m4.1) ?_
+  intro ok s5 m5
+  have b5 := rt_le m5.2
+  have m25 : Mv toks s2.idx s5.idx := Mv.trans (Mv.trans m3.1 m4) (Mv.step b5.1 m5.1)
+  refine ite_intro (fun _ => ⟨m2.2.2 _ m25, m5.1⟩) fun _ => ?_
+  refine wp_mono (enumBodyLoop_ok toks hne hl fuel [] s5 m5.1) ?_
+  intro vs s6 m6
+  refine wp_mono (spec_requireToken toks hne "}" s6 m6.1) ?_
+  intro _ s7 m7
+  have b7 := rt_le m7.2
+  exact ⟨m2.2.2 _ (Mv.trans (Mv.trans m25 m6) (Mv.step b7.1 m7.1)), m7.1⟩
+
+theorem parseStruct_ok (fuel : Nat) (s : St) (hs : s.idx ≤ toks.length)
+    (hk : tokIs toks s.idx "public" = true ∨ tokIs toks s.idx "struct" = true) :
+    wp (parseStruct toks false fuel) (fun _ s' => Sf toks s s') s := by
+  unfold parseStruct
+  have hh := head_ok toks hne hl "struct" (by decide) s hs hk
+  simp only [wp_bind, wp_pure, wp_ite] at hh ⊢
+  refine wp_mono hh ?_
+  intro pub s1 m1
+  refine wp_mono m1 ?_
+  intro _ s2 m2
+  refine wp_mono (spec_parseSymbol toks hne hl false s2 m2.1) ?_
+  intro name s3 m3
+  refine wp_mono (parseTypeParams_ok toks hne hl fuel s3 m3.1.1) ?_
+  intro tps s4 m4
+  refine wp_mono (spec_requiredTokenOk toks hne "{" s4 m4.1) ?_
+  intro ok s5 m5
+  have b5 := rt_le m5.2
+  have m25 : Mv toks s2.idx s5.idx := Mv.trans (Mv.trans m3.1 m4) (Mv.step b5.1 m5.1)
+  refine ite_intro (fun _ => ⟨m2.2.2 _ m25, m5.1⟩) fun _ => ?_
+  refine wp_mono (structFieldsLoop_ok toks hne hl fuel [] s5 m5.1) ?_
+  intro vs s6 m6
+  refine wp_mono (spec_requireToken toks hne "}" s6 m6.1) ?_
+  intro _ s7 m7
+  have b7 := rt_le m7.2
+  exact ⟨m2.2.2 _ (Mv.trans (Mv.trans m25 m6) (Mv.step b7.1 m7.1)), m7.1⟩
+
+theorem parseImport_ok (s : St) (hs : s.idx ≤ toks.length) (hk : tokIs toks s.idx "import" = true) :
+    wp (parseImport toks false) (fun _ s' => Sf toks s s') s := by
+  unfold parseImport
+  wpsimp'
+  refine wp_mono (spec_requireToken toks hne "import" s hs) ?_
+  intro _ s1 m1
+  have e1 := rt_eq m1.2 hk
+  cases ht : toks[s1.idx]? with
+  | none => (try wpsimp'); exact ⟨by first | omega | (simp only []; omega), by first | exact m1.1 | (simp only []; exact m1.1)⟩
+  | some t =>
+    have hlt := get_lt ht
+    refine ite_intro (fun _ => ?_) fun _ => ?_
+    · refine wp_mono (spec_diagN toks hne _ _ _) ?_
+      intro _ s2 m2
+      have e2 : s2.idx = s1.idx + 1 := by simpa using m2
+      refine ite_intro (fun c => ?_) fun _ => ?_
+      · obtain ⟨t2, ht2, _⟩ := tokIs_get c
+        have hlt2 := get_lt ht2
+        simp only [ht2]
+        refine wp_mono (spec_parseSymbol toks hne hl false ⟨s2.idx + 1, s2.diags⟩ (by first | omega | (simp only []; omega))) ?_
+        intro sym s3 m3
+        have hm : Mv toks (s.idx + 1) s3.idx :=
+          Mv.trans (Mv.step (by simp only []; omega) (by first | omega | (simp only []; omega))) m3.1
+        exact ⟨kw_strict hk (by decide) hm, m3.1.1⟩
+      · exact ⟨by omega, by omega⟩
+    · (try wpsimp'); exact ⟨by first | omega | (simp only []; omega), by first | omega | (simp only []; omega)⟩
+
+/-- `parse_definition`: forward; an item came out only after something was consumed. -/
+theorem parseDefinition_ok (fuel : Nat) (s : St) (hs : s.idx < toks.length) :
+    wp (parseDefinition toks false fuel) (fun r s' => Fw toks s s' ∧ (r.isSome = true → s.idx < s'.idx)) s := by
+  unfold parseDefinition
+  wpsimp'
+  have sf : ∀ {s' : St} {r : Option Item}, Sf toks s s' → Fw toks s s' ∧ (r.isSome = true → s.idx < s'.idx) :=
+    fun h => ⟨⟨Nat.le_of_lt h.1, h.2⟩, fun _ => h.1⟩
+  have hs' : s.idx ≤ toks.length := Nat.le_of_lt hs
+  cases h0 : toks[s.idx]? with
+  | none => have := get_none h0; omega
+  | some t0 =>
+    have kw : ∀ k : String, (t0.text == k) = true → tokIs toks s.idx k = true := by
+      intro k hk; simp only [tokIs, h0]; exact hk
+    cases h1 : toks[s.idx + 1]? with
+    | none =>
+      simp only [Option.map_some, Option.map_none]
+      wpsimp'
+      exact ⟨⟨Nat.le_refl _, hs'⟩, fun h => by simp at h⟩
+    | some t1 =>
+      simp only [Option.map_some]
+      wpsimp'
+      refine ite_intro (fun c => ?_) fun _ => ?_
+      · have c1 : (t0.text == "fun") = true := by
+          have c' := c; simp only [Bool.and_eq_true] at c'; exact c'.1
+        exact wp_mono (parseFunction_ok toks hne hl fuel s hs' (Or.inr (kw _ c1))) (fun _ _ m => sf m)
+      · refine ite_intro (fun c => ?_) fun _ => ?_
+        · have c1 : (t0.text == "public") = true := by
+            have c' := c; simp only [Bool.and_eq_true] at c'; exact c'.1.1
+          exact wp_mono (parseFunction_ok toks hne hl fuel s hs' (Or.inl (kw _ c1))) (fun _ _ m => sf m)
+        · refine ite_intro (fun c => ?_) fun _ => ?_
+          · have c1 : tokIs toks s.idx "public" = true ∨ tokIs toks s.idx "method" = true := by
+              have c' := c; simp only [Bool.or_eq_true, Bool.and_eq_true] at c'
+              rcases c' with h | h
+              · exact Or.inr (kw _ h)
+              · exact Or.inl (kw _ h.1)
+            refine wp_mono (parseMethod_ok toks hne hl fuel s hs' c1) ?_
+            intro m s1 m1; exact sf m1
+          · refine ite_intro (fun c => ?_) fun _ => ?_
+            · refine wp_mono (parseTest_ok toks hne hl fuel s hs' (kw _ c)) ?_
+              intro m s1 m1; exact sf m1
+            · refine ite_intro (fun c => ?_) fun _ => ?_
+              · have c1 : tokIs toks s.idx "public" = true ∨ tokIs toks s.idx "enum" = true := by
+                  have c' := c; simp only [Bool.or_eq_true, Bool.and_eq_true] at c'
+                  rcases c' with h | h
+                  · exact Or.inr (kw _ h)
+                  · exact Or.inl (kw _ h.1)
+                refine wp_mono (parseEnum_ok toks hne hl fuel s hs' c1) ?_
+                intro m s1 m1; exact sf m1
+              · refine ite_intro (fun c => ?_) fun _ => ?_
+                · have c1 : tokIs toks s.idx "public" = true ∨ tokIs toks s.idx "struct" = true := by
+                    have c' := c; simp only [Bool.or_eq_true, Bool.and_eq_true] at c'
+                    rcases c' with h | h
+                    · exact Or.inr (kw _ h)
+                    · exact Or.inl (kw _ h.1)
+                  refine wp_mono (parseStruct_ok toks hne hl fuel s hs' c1) ?_
+                  intro m s1 m1; exact sf m1
+                · refine ite_intro (fun c => ?_) fun _ => ?_
+                  · exact wp_mono (parseImport_ok toks hne hl s hs' (kw _ c)) (fun _ _ m => sf m)
+                  · exact ⟨⟨Nat.le_refl _, hs'⟩, fun h => by simp at h⟩
+
+/-- `parse_toplevel_item_from_tokens`: forward; an item that is not invalid / a placeholder consumed
+at least one token (what the assertion at parser.rs:3067 checks). -/
+theorem parseToplevelItem_ok (fuel : Nat) (s : St) (hs : s.idx < toks.length) :
+    wp (parseToplevelItem toks false fuel) (fun r s' => Fw toks s s' ∧
+      (∀ item, r = some item → item.isInvalidOrPlaceholder = false → s.idx < s'.idx)) s := by
+  unfold parseToplevelItem
+  wpsimp'
+  have hs' : s.idx ≤ toks.length := Nat.le_of_lt hs
+  cases h0 : toks[s.idx]? with
+  | none => have := get_none h0; omega
+  | some t0 =>
+    simp only [Option.map_some]
+    refine ite_intro (fun _ => ?_) fun _ => ?_
+    · refine wp_mono (parseDefinition_ok toks hne hl fuel s hs) ?_
+      intro r s1 m1
+      exact ⟨m1.1, fun item hr _ => m1.2 (by rw [hr]; rfl)⟩
+    · refine ite_intro (fun c => ?_) fun _ => ?_
+      · have hk : tokIs toks s.idx "{" = true := by simp only [tokIs, h0]; exact c
+        refine wp_mono (block_strict toks hne hl fuel s hs' hk) ?_
+        intro b s1 m1
+        exact ⟨⟨Nat.le_of_lt m1.1, m1.2⟩, fun _ _ _ => m1.1⟩
+      · refine wp_mono ((specs_all toks hne hl fuel).exprT true s hs') ?_
+        intro e s1 m1
+        refine ⟨⟨m1.1, m1.2.1⟩, fun item hr hi => ?_⟩
+        cases hr
+        exact m1.2.2 hi
+
+/-- `parse_toplevel_items_from_tokens`: the items loop (assertion parser.rs:3067) never panics. -/
+theorem itemsLoop_ok : ∀ fuel acc s, s.idx ≤ toks.length →
+    wp (itemsLoop toks false fuel acc) (fun _ s' => Fw toks s s') s := by
+  intro fuel
+  induction fuel with
+  | zero => intro acc s hs; rw [itemsLoop]; simp [wp_outOfFuel]
+  | succ fuel ih =>
+    intro acc s hs
+    rw [itemsLoop]
+    wpsimp'
+    refine ite_intro (fun _ => ⟨Nat.le_refl _, hs⟩) fun c => ?_
+    have hlt : s.idx < toks.length := by omega
+    refine wp_mono (parseToplevelItem_ok toks hne hl fuel s hlt) ?_
+    intro r s1 m1
+    cases r with
+    | none => simp only [wp_pure]; exact m1.1
+    | some item =>
+      simp only []
+      cases hi : item.isInvalidOrPlaceholder with
+      | true => simp only [↓reduceIte, wp_pure]; exact m1.1
+      | false =>
+        have hgt := m1.2 item rfl hi
+        simp only [Bool.false_eq_true, ↓reduceIte, wp_bind, wp_getIdx, wp_ite, wp_panic, gt_iff_lt, hgt]
+        refine wp_mono (ih _ s1 m1.1.2) ?_
+        intro _ s2 m2
+        exact ⟨by have := m2.1; omega, m2.2⟩
+
+end level3
+
+/-- **C01, parser half — the whole parser.** For every non-empty token list with the two lexer
+guarantees `LexLike` and EVERY fuel, `parse_toplevel_items` (the model of the repaired parser) does
+not panic: none of the ten forward-progress assertions, the two `expect("TODO: handle empty …")`,
+the `unwrap`s or `unpop` can fire. (With too little fuel the model answers `outOfFuel`, never `panic`;
+termination is a separate matter and is not claimed here.) -/
+theorem parse_no_panic (fuel : Nat) (toks : Toks) (hne : toks ≠ []) (hl : LexLike toks) :
+    isPanic (parseItems fuel toks) = false := by
+  unfold parseItems parseItemsCfg
+  exact not_panic_of_wp toks hne hl (itemsLoop_ok toks hne hl fuel [] ⟨0, []⟩ (Nat.zero_le _))
+
+/-- A concrete non-trivial token list satisfies the hypotheses: `let x = 1.5 + f(2)`. -/
+example : LexLike [⟨"let", true, 0, 0⟩, ⟨"x", false, 0, 0⟩, ⟨"=", false, 0, 0⟩, ⟨"1.5", false, 0, 0⟩,
+    ⟨"+", false, 0, 0⟩, ⟨"f", false, 0, 0⟩, ⟨"(", true, 0, 0⟩, ⟨"2", true, 0, 0⟩, ⟨")", true, 0, 0⟩] := by
+  constructor <;> decide
+
 /-! ### Evaluated witnesses (tests, not the theorem) -/
 
 def isPanicAt {α} (site : String) : Res α → Bool
@@ -1894,3 +2334,499 @@ theorem pinned_let_dest_panics : isPanicAt "parser.rs:2812" (parseItemsCfg true 
 theorem fixed_let_dest_ok : isOk (parseItemsCfg false 60 letToks) = true := by decide
 
 end C01Parse
+
+/-! ### The lexer model's output satisfies `LexLike` -/
+
+set_option linter.unusedSimpArgs false
+
+open Parse
+theorem lexDigit_eq (c : Char) : Lex.isDigit c = c.isDigit := by
+  rw [Bool.eq_iff_iff]
+  simp only [Lex.isDigit, Char.isDigit, Char.toNat, Bool.and_eq_true, decide_eq_true_eq, ge_iff_le,
+    UInt32.le_iff_toNat_le]
+  have h0 : ('0' : Char).val.toNat = 48 := by decide
+  have h9 : ('9' : Char).val.toNat = 57 := by decide
+  rw [h0, h9]
+
+theorem symStart_eq (c : Char) : Lex.isSymStart c = Parse.isSymStart c := by
+  rw [Bool.eq_iff_iff]
+  simp only [Lex.isSymStart, Parse.isSymStart, Char.isAlpha, Char.isUpper, Char.isLower, Char.toNat,
+    Bool.or_eq_true, Bool.and_eq_true, decide_eq_true_eq, ge_iff_le, UInt32.le_iff_toNat_le, beq_iff_eq]
+  have hA : ('A' : Char).val.toNat = 65 := by decide
+  have hZ : ('Z' : Char).val.toNat = 90 := by decide
+  have ha : ('a' : Char).val.toNat = 97 := by decide
+  have hz : ('z' : Char).val.toNat = 122 := by decide
+  rw [hA, hZ, ha, hz]
+  constructor
+  · rintro ((h | h) | h)
+    · exact Or.inl (Or.inr h)
+    · exact Or.inl (Or.inl h)
+    · exact Or.inr h
+  · rintro ((h | h) | h)
+    · exact Or.inl (Or.inr h)
+    · exact Or.inl (Or.inl h)
+    · exact Or.inr h
+
+namespace LexLikeProof
+open Lex
+
+theorem digitU_eq (c : Char) : Lex.isDigitU c = (c.isDigit || c == '_') := by
+  simp [Lex.isDigitU, lexDigit_eq]
+
+theorem symStart_not_digit {c : Char} (h : Lex.isSymStart c = true) : c.isDigit = false := by
+  rw [← lexDigit_eq]
+  simp only [Lex.isSymStart, Lex.isDigit, Bool.or_eq_true, Bool.and_eq_true, decide_eq_true_eq, beq_iff_eq] at h ⊢
+  rcases h with (h | h) | h
+  · simp; omega
+  · simp; omega
+  · subst h; decide
+
+theorem digit_not_symStart {c : Char} (h : Lex.isDigit c = true) : Parse.isSymStart c = false := by
+  rw [← symStart_eq]
+  cases hs : Lex.isSymStart c with
+  | false => rfl
+  | true => have := symStart_not_digit hs; rw [← lexDigit_eq, h] at this; cases this
+
+theorem digit_ne_minus {c : Char} (h : c.isDigit = true) : c ≠ '-' := by
+  intro e; subst e; revert h; decide
+theorem digit_ne_us {c : Char} (h : c.isDigit = true) : c ≠ '_' := by
+  intro e; subst e; revert h; decide
+theorem digit_ne_dot {c : Char} (h : c.isDigit = true) : c ≠ '.' := by
+  intro e; subst e; revert h; decide
+
+/-- `dropDigitsUnderscore` eats a `takeWhile isDigitU` prefix. -/
+theorem dropDU_tw (r x : List Char) :
+    dropDigitsUnderscore (r.takeWhile Lex.isDigitU ++ x) = dropDigitsUnderscore x := by
+  induction r with
+  | nil => simp
+  | cons c r ih =>
+    simp only [List.takeWhile_cons]
+    cases hc : Lex.isDigitU c with
+    | false => simp
+    | true =>
+      have : (c.isDigit || c == '_') = true := by rw [← digitU_eq]; exact hc
+      simp only [↓reduceIte, List.cons_append, dropDigitsUnderscore, this, ih]
+
+theorem dropDU_dot (x : List Char) : dropDigitsUnderscore ('.' :: x) = '.' :: x := by
+  simp [dropDigitsUnderscore]
+
+theorem dropDU_nil : dropDigitsUnderscore [] = [] := rfl
+
+/-- An integer token does not look like a float. -/
+theorem int_not_float {s m : List Char} (h : scanInt s = some m) : isFloatChars m = false := by
+  unfold scanInt at h
+  split at h
+  · rename_i d r
+    split at h
+    · rename_i hd
+      cases h
+      have hd' : d.isDigit = true := by rw [← lexDigit_eq]; exact hd
+      have := dropDU_tw r []
+      simp only [List.append_nil] at this
+      simp [isFloatChars, hd', this, dropDU_nil]
+    · cases h
+  · rename_i d r hne
+    split at h
+    · rename_i hd
+      cases h
+      have hd' : d.isDigit = true := by rw [← lexDigit_eq]; exact hd
+      have hm := digit_ne_minus hd'
+      have := dropDU_tw r []
+      simp only [List.append_nil] at this
+      simp [isFloatChars, hd', hm, this, dropDU_nil]
+    · cases h
+  · cases h
+
+theorem span_loop_all {p : Char → Bool} (a : List Char) (x : Char) (b acc : List Char)
+    (ha : ∀ c ∈ a, p c = true) (hx : p x = false) :
+    List.span.loop p (a ++ x :: b) acc = (acc.reverse ++ a, x :: b) := by
+  induction a generalizing acc with
+  | nil => simp [List.span.loop, hx]
+  | cons c a ih =>
+    have hc := ha c (List.mem_cons_self ..)
+    simp only [List.cons_append, List.span.loop, hc]
+    rw [ih (c :: acc) (fun y hy => ha y (List.mem_cons_of_mem _ hy))]
+    simp
+
+theorem span_all {p : Char → Bool} (a : List Char) (x : Char) (b : List Char)
+    (ha : ∀ c ∈ a, p c = true) (hx : p x = false) : (a ++ x :: b).span p = (a, x :: b) := by
+  unfold List.span
+  rw [span_loop_all a x b [] ha hx]
+  simp
+
+/-- After removing `_`, a `takeWhile isDigitU` run consists of digits. -/
+theorem tw_filter_digits (r : List Char) :
+    ∀ c ∈ (r.takeWhile Lex.isDigitU).filter (· != '_'), c.isDigit = true := by
+  intro c hc
+  rw [List.mem_filter] at hc
+  have hall := List.all_eq_true.mp (List.all_takeWhile (l := r) (p := Lex.isDigitU)) c hc.1
+  rw [digitU_eq] at hall
+  have h2 : c ≠ '_' := by simpa using hc.2
+  simpa [h2] using hall
+
+theorem fw_core (d0 d : Char) (F0 F : List Char) (hd0 : d0.isDigit = true) (hd : d.isDigit = true)
+    (hF0 : ∀ c ∈ F0, c.isDigit = true) (hF : ∀ c ∈ F, c.isDigit = true) :
+    floatWhole (d0 :: (F0 ++ '.' :: d :: F)) = true ∧ floatWhole ('-' :: d0 :: (F0 ++ '.' :: d :: F)) = true := by
+  have hsp := span_all (p := Char.isDigit) (d0 :: F0) '.' (d :: F)
+    (by intro c hc; rcases List.mem_cons.mp hc with rfl | hc; exact hd0; exact hF0 c hc) (by decide)
+  have hm0 := digit_ne_minus hd0
+  have hall : (d :: F).all Char.isDigit = true := by
+    rw [List.all_eq_true]; intro c hc; rcases List.mem_cons.mp hc with rfl | hc; exact hd; exact hF c hc
+  have key : ∀ l : List Char, l = (d0 :: F0) ++ '.' :: (d :: F) → floatWhole l = true := by
+    intro l hl
+    unfold floatWhole
+    simp only []
+    split
+    · rename_i a b heq
+      split at heq
+      · rename_i r'
+        rw [List.cons_append] at hl
+        injection hl with h1 _
+        exact absurd h1.symm hm0
+      · rw [hl, hsp] at heq
+        injection heq with h1 h2
+        injection h2 with _ h3
+        subst h1 h3
+        simp [hall]
+    · rename_i hno
+      exfalso
+      refine hno (d0 :: F0) (d :: F) ?_
+      split
+      · rename_i r'
+        rw [List.cons_append] at hl
+        injection hl with h1 _
+        exact absurd h1.symm hm0
+      · rw [hl, hsp]
+  constructor
+  · exact key _ rfl
+  · unfold floatWhole
+    simp only []
+    rw [show d0 :: (F0 ++ '.' :: d :: F) = (d0 :: F0) ++ '.' :: (d :: F) from rfl, hsp]
+    simp [hall]
+
+/-- A float token, with `_` removed, is `-?digits.digits`. -/
+theorem float_whole {s m : List Char} (h : scanFloat s = some m) :
+    floatWhole (m.filter (· != '_')) = true := by
+  unfold scanFloat at h
+  split at h
+  · cases h
+  · rename_i mi hmi
+    split at h
+    · rename_i d r hdrop
+      split at h
+      · rename_i hd
+        cases h
+        have hd' : d.isDigit = true := by rw [← lexDigit_eq]; exact hd
+        have e2 : (d != '_') = true := by simpa using digit_ne_us hd'
+        unfold scanInt at hmi
+        split at hmi
+        · rename_i d0 r0
+          split at hmi
+          · rename_i hd0
+            cases hmi
+            have hd0' : d0.isDigit = true := by rw [← lexDigit_eq]; exact hd0
+            have e1 : (d0 != '_') = true := by simpa using digit_ne_us hd0'
+            simp only [List.cons_append, List.filter_cons, List.filter_append, show (('-' : Char) != '_') = true by decide,
+              show (('.' : Char) != '_') = true by decide, e1, e2, ↓reduceIte]
+            exact (fw_core d0 d _ _ hd0' hd' (tw_filter_digits r0) (tw_filter_digits r)).2
+          · cases hmi
+        · rename_i d0 r0 hne
+          split at hmi
+          · rename_i hd0
+            cases hmi
+            have hd0' : d0.isDigit = true := by rw [← lexDigit_eq]; exact hd0
+            have e1 : (d0 != '_') = true := by simpa using digit_ne_us hd0'
+            simp only [List.cons_append, List.filter_cons, List.filter_append,
+              show (('.' : Char) != '_') = true by decide, e1, e2, ↓reduceIte]
+            exact (fw_core d0 d _ _ hd0' hd' (tw_filter_digits r0) (tw_filter_digits r)).1
+          · cases hmi
+        · cases hmi
+      · cases h
+    · cases h
+
+/-- What a token text can be (`LexTables.garden`). -/
+def Shape (m : List Char) : Prop :=
+  m ∈ LexTables.garden.twoCharOps ++ LexTables.garden.twoCharTokens ∨
+  (∃ c, c ∈ LexTables.garden.oneCharOps ++ LexTables.garden.oneCharTokens ∧ m = [c]) ∨
+  (∃ s, scanFloat s = some m) ∨ (∃ s, scanInt s = some m) ∨
+  (∃ r, m = '"' :: r ∧ m.head? = some '"') ∨ (∃ s, scanSymbol s = some m)
+
+theorem symChar_ne_nl {c : Char} (h : Lex.isSymChar c = true) : c ≠ '\n' := by
+  intro e; subst e; revert h; decide
+
+/-- A token that looks like a float is a whole float. -/
+theorem shape_float {m : List Char} (h : Shape m) (hf : isFloatChars m = true) :
+    floatWhole (m.filter (· != '_')) = true := by
+  rcases h with h | ⟨c, hc, rfl⟩ | ⟨s, h⟩ | ⟨s, h⟩ | ⟨r, rfl, _⟩ | ⟨s, h⟩
+  · exfalso; revert hf; revert m; decide
+  · exfalso; revert hf; revert c; decide
+  · exact float_whole h
+  · rw [int_not_float h] at hf; cases hf
+  · simp [isFloatChars] at hf
+  · exfalso
+    unfold scanSymbol at h
+    split at h
+    · rename_i c r
+      split at h
+      · rename_i hc
+        cases h
+        have hnd := symStart_not_digit hc
+        have hm : c ≠ '-' := by intro e; subst e; revert hc; decide
+        have : isFloatChars (c :: r.takeWhile Lex.isSymChar) = false := by
+          unfold isFloatChars
+          split
+          · rename_i heq
+            injection heq with h3 _
+            exact absurd h3 hm
+          · simp [hnd]
+        rw [this] at hf; cases hf
+      · cases h
+    · cases h
+
+/-- A symbol-like token contains no newline. -/
+theorem shape_sym {m : List Char} (h : Shape m) (c : Char) (r : List Char) (hm : m = c :: r)
+    (hs : Parse.isSymStart c = true) : m.count '\n' = 0 := by
+  rcases h with h | ⟨c', hc, rfl⟩ | ⟨s, h⟩ | ⟨s, h⟩ | ⟨r', rfl, _⟩ | ⟨s, h⟩
+  · exfalso
+    have key : ∀ e ∈ LexTables.garden.twoCharOps ++ LexTables.garden.twoCharTokens,
+        (match e with | c :: _ => Parse.isSymStart c | [] => false) = false := by decide
+    have := key m h
+    rw [hm] at this
+    simp only [] at this
+    rw [hs] at this; cases this
+  · exfalso; injection hm with h1 _; subst h1; revert hs; revert c'; decide
+  · exfalso
+    have := scanFloat_prefix h
+    unfold scanFloat at h
+    split at h
+    · cases h
+    · rename_i mi hmi
+      -- the head of a float is the head of its integer part
+      have hhead : ∃ d tl, mi = d :: tl ∧ (d = '-' ∨ Lex.isDigit d = true) := by
+        unfold scanInt at hmi
+        split at hmi
+        · split at hmi
+          · cases hmi; exact ⟨'-', _, rfl, Or.inl rfl⟩
+          · cases hmi
+        · rename_i d r0 _
+          split at hmi
+          · rename_i hd; cases hmi; exact ⟨d, _, rfl, Or.inr hd⟩
+          · cases hmi
+        · cases hmi
+      obtain ⟨d, tl, hmi', hd⟩ := hhead
+      split at h
+      · split at h
+        · cases h
+          rw [hmi'] at hm
+          injection hm with h1 _
+          subst h1
+          rcases hd with rfl | hd
+          · revert hs; decide
+          · rw [digit_not_symStart hd] at hs; cases hs
+        · cases h
+      · cases h
+  · exfalso
+    unfold scanInt at h
+    split at h
+    · split at h
+      · cases h; injection hm with h1 _; subst h1; revert hs; decide
+      · cases h
+    · rename_i d r0 _
+      split at h
+      · rename_i hd; cases h; injection hm with h1 _; subst h1
+        rw [digit_not_symStart hd] at hs; cases hs
+      · cases h
+    · cases h
+  · exfalso; injection hm with h1 _; subst h1; revert hs; decide
+  · unfold scanSymbol at h
+    split at h
+    · rename_i c0 r0
+      split at h
+      · cases h
+        rw [List.count_eq_zero]
+        intro hmem
+        rcases List.mem_cons.mp hmem with e | hmem
+        · rename_i hc0
+          have : Lex.isSymChar '\n' = true := by rw [e]; simp [Lex.isSymChar, hc0]
+          exact absurd this (by decide)
+        · have := List.all_eq_true.mp (List.all_takeWhile (l := r0) (p := Lex.isSymChar)) _ hmem
+          exact symChar_ne_nl this rfl
+      · cases h
+    · cases h
+
+def ShapeAll (ts : List Token) : Prop := ∀ t ∈ ts, Shape t.text
+
+theorem adv_shape {st st' : State} {n : Nat} {ts : List Token} (h : advance st n = .next st')
+    (ht : st.toks = ts) (hs : ShapeAll ts) : ShapeAll st'.toks := by
+  unfold advance at h
+  split at h
+  · cases h
+  · cases h; simp only; rw [ht]; exact hs
+
+theorem emit_shape {cfg : Cfg} {lp : List (Nat × Nat)} {st st' : State} {m : List Char} {err : Option ErrKind}
+    (h : emit cfg lp st m err = .next st') (hs : ShapeAll st.toks) (hm : Shape m) : ShapeAll st'.toks := by
+  unfold emit at h
+  split at h
+  · cases h
+  · rename_i p hp
+    refine adv_shape h rfl ?_
+    intro t ht
+    rcases List.mem_cons.mp ht with rfl | ht
+    · exact hm
+    · exact hs t ht
+
+theorem strBody_head (any : Bool) (r : List Char) :
+    (('"' :: strBody any false r).takeWhile (· != '\n')) = '"' :: (strBody any false r).takeWhile (· != '\n') := by
+  simp [List.takeWhile_cons]
+
+theorem step_shape {cfg : Cfg} {lp : List (Nat × Nat)} {endOff : Nat} {st st' : State}
+    (h : step LexTables.garden cfg lp endOff st = .next st') (hs : ShapeAll st.toks) : ShapeAll st'.toks := by
+  unfold step at h
+  split at h
+  · cases h
+  · simp only [] at h
+    split at h
+    · -- comment
+      split at h
+      · cases h
+      · exact adv_shape h rfl hs
+    · split at h
+      · cases h
+      · rename_i c rest hrest
+        split at h
+        · exact adv_shape h rfl hs
+        · split at h
+          · rename_i e he
+            exact emit_shape h hs (Or.inl (List.mem_of_find?_eq_some he))
+          · split at h
+            · rename_i m hm
+              exact emit_shape h hs (Or.inr (Or.inr (Or.inl ⟨_, hm⟩)))
+            · split at h
+              · rename_i m hm
+                exact emit_shape h hs (Or.inr (Or.inr (Or.inr (Or.inl ⟨_, hm⟩))))
+              · split at h
+                · rename_i hc
+                  split at h
+                  · refine emit_shape h hs (Or.inr (Or.inl ⟨c, ?_, rfl⟩))
+                    simpa using hc
+                  · cases h
+                · split at h
+                  · rename_i m hm
+                    have hq : ∃ r, m = '"' :: r := by
+                      unfold scanString at hm
+                      split at hm
+                      · split at hm
+                        · cases hm; exact ⟨_, rfl⟩
+                        · cases hm
+                      · cases hm
+                    obtain ⟨r, rfl⟩ := hq
+                    split at h
+                    · exact emit_shape h hs (Or.inr (Or.inr (Or.inr (Or.inr (Or.inl ⟨r, rfl, rfl⟩)))))
+                    · refine emit_shape h hs (Or.inr (Or.inr (Or.inr (Or.inr (Or.inl ⟨r.takeWhile (· != '\n'), ?_, ?_⟩)))))
+                      · simp [List.takeWhile_cons]
+                      · simp [List.takeWhile_cons]
+                  · split at h
+                    · rename_i m hm
+                      exact emit_shape h hs (Or.inr (Or.inr (Or.inr (Or.inr (Or.inr ⟨_, hm⟩)))))
+                    · split at h
+                      · cases h
+                      · split at h
+                        · cases h
+                        · exact adv_shape h rfl hs
+
+theorem loop_shape {cfg : Cfg} {lp : List (Nat × Nat)} {endOff : Nat} :
+    ∀ (fuel : Nat) (st : State), ShapeAll st.toks →
+      ShapeAll (loop LexTables.garden cfg lp endOff fuel st).tokens := by
+  intro fuel
+  induction fuel with
+  | zero => intro st _; simp [loop, Outcome.tokens, ShapeAll]
+  | succ n ih =>
+    intro st hs
+    unfold loop
+    split
+    · simp only [Outcome.tokens]
+      intro t ht
+      exact hs t (by simpa using ht)
+    · simp [Outcome.tokens, ShapeAll]
+    · rename_i st' hst
+      exact ih st' (step_shape hst hs)
+
+/-- Every token of the lexer model has one of the six shapes. -/
+theorem lex_shape (src : List Char) (strAny : Bool) :
+    ShapeAll (lex LexTables.garden src strAny).tokens := by
+  unfold lex lexWith lexBetweenFuel
+  split
+  · simp [Outcome.tokens, ShapeAll]
+  · simp only []
+    split
+    · split <;> simp [Outcome.tokens, ShapeAll]
+    · exact loop_shape _ _ (by simp [ShapeAll])
+
+/-- The parser's view of the lexer's tokens (as `Driver/Parse.lean` builds it from the `lex` dump):
+text, does-it-touch-the-previous-token (token 0: does it start at offset 0), start line, end line. -/
+def convGo : List Token → Nat → List Parse.Tok
+  | [], _ => []
+  | t :: r, prevEnd =>
+    ⟨String.ofList t.text, t.pos.start == prevEnd, t.pos.line, t.pos.endLine⟩ :: convGo r t.pos.stop
+
+def toParseToks (ts : List Token) : List Parse.Tok := convGo ts 0
+
+theorem mem_convGo {ts : List Token} {k : Nat} {t' : Parse.Tok} (h : t' ∈ convGo ts k) :
+    ∃ t ∈ ts, t'.text = String.ofList t.text ∧ t'.line = t.pos.line ∧ t'.endLine = t.pos.endLine := by
+  induction ts generalizing k with
+  | nil => simp [convGo] at h
+  | cons t r ih =>
+    simp only [convGo, List.mem_cons] at h
+    rcases h with rfl | h
+    · exact ⟨t, List.mem_cons_self .., rfl, rfl, rfl⟩
+    · obtain ⟨t0, h0, h1⟩ := ih h
+      exact ⟨t0, List.mem_cons_of_mem _ h0, h1⟩
+
+/-- **The lexer model's output satisfies the hypothesis of `C01Parse.parse_no_panic`.** -/
+theorem lex_lexLike (src : List Char) (strAny : Bool) :
+    C01Parse.LexLike (toParseToks (lex LexTables.garden src strAny).tokens) := by
+  have hshape := lex_shape src strAny
+  obtain ⟨toks, tr, errs, hok, htoks, _, _⟩ := lex_ok garden_wf src strAny
+  constructor
+  · intro t' ht' hf
+    obtain ⟨t, ht, e1, _, _⟩ := mem_convGo ht'
+    rw [e1] at hf ⊢
+    simp only [isFloatTok, String.toList_ofList] at hf ⊢
+    exact shape_float (hshape t ht) hf
+  · intro t' ht' hsym
+    obtain ⟨t, ht, e1, e2, e3⟩ := mem_convGo ht'
+    rw [e1] at hsym
+    simp only [isSymbolTok, String.toList_ofList] at hsym
+    rw [e2, e3]
+    have htok : TokOK src t := by
+      rw [hok] at ht
+      exact (htoks t (by simpa [Outcome.tokens] using ht)).1
+    obtain ⟨pre, post, _, hpos⟩ := htok
+    cases htext : t.text with
+    | nil => rw [htext] at hsym; simp at hsym
+    | cons c r =>
+      rw [htext] at hsym
+      simp only [] at hsym
+      have hcount := shape_sym (hshape t ht) c r htext hsym
+      rw [hpos]
+      simp only [specPos, lineOf, List.count_append, hcount, Nat.add_zero]
+
+end LexLikeProof
+
+/-- `parse_toplevel_items` on an empty token stream returns immediately. -/
+theorem parse_no_panic_nil (fuel : Nat) : C01Parse.isPanic (Parse.parseItems fuel []) = false := by
+  cases fuel with
+  | zero => simp [Parse.parseItems, Parse.parseItemsCfg, Parse.itemsLoop, Parse.outOfFuel, C01Parse.isPanic]
+  | succ n =>
+    simp [Parse.parseItems, Parse.parseItemsCfg, Parse.itemsLoop, ParseLemmas.bind_apply, Parse.P.bind, Parse.getIdx,
+      ParseLemmas.pure_apply, C01Parse.isPanic]
+
+/-- **Lexer model ∘ parser model never panics**: for every source text (and either `STRING_RE`) and
+every fuel, the parser model run on the lexer model's tokens does not panic. No hypothesis left:
+`LexLike` is discharged by `lex_lexLike`, the empty stream by `parse_no_panic_nil`. -/
+theorem lex_parse_no_panic (src : List Char) (strAny : Bool) (fuel : Nat) :
+    C01Parse.isPanic (Parse.parseItems fuel
+      (LexLikeProof.toParseToks (Lex.lex Lex.LexTables.garden src strAny).tokens)) = false := by
+  by_cases h : LexLikeProof.toParseToks (Lex.lex Lex.LexTables.garden src strAny).tokens = []
+  · rw [h]; exact parse_no_panic_nil fuel
+  · exact C01Parse.parse_no_panic fuel _ h (LexLikeProof.lex_lexLike src strAny)
